@@ -666,6 +666,147 @@ example : SigDetermined exE "m.Base" := by
     rcases hm with rfl | rfl | rfl | rfl | rfl | rfl | rfl | rfl <;> simp at h
   · cases h
 
+/-! ## several class-typed options in one parser: the work-list walk of the merge (`merge_config`) -/
+
+/-- the statements of `ActionTypeHint.discard_init_args_on_class_path_change` (the walk) and of the module-level
+    `discard_init_args_on_class_path_change` / `resolve_class_path_by_name` / the Dataclass-like test that `discardWalk`,
+    `keepArgs`, `resolveName`, `dataFieldsOf` transcribe, as they stand in the source (regenerated on every run) -/
+theorem C14_statements_pinned :
+    Jap.Gen.discardPruneSep = "."
+    ∧ Jap.Gen.discardWalkPrune = ["keys = keys[:num + 1] + [k for k in keys[num + 1:] if not k.startswith(key + '.')]"]
+    ∧ Jap.Gen.discardWalkGuard = ["is_subclass_spec(prev_val) and is_subclass_spec(val)", "isinstance(action, ActionTypeHint)", "prev_sub_cfg"]
+    ∧ Jap.Gen.discardModuleGuard = ["prev_val and 'init_args' in prev_val and (prev_val['class_path'] != value['class_path'])"]
+    ∧ Jap.Gen.discardModuleDrops = ["if not action:\n    del_args[key] = prev_val.init_args.pop(key)"]
+    ∧ Jap.Gen.dataclassSpecTest = ["is_subclass_spec(val) and get_import_path(typehint) == val.get('class_path')"]
+    ∧ Jap.Gen.resolveByNameTests = ["'.' not in class_path", "name in subclass_dict", "len(name_subclasses) > 1"]
+    ∧ Jap.Gen.adaptClassTypeDictKwargs
+        = ["if _find_action(parser, key):\n    init_args[key] = dict_kwargs.pop(key)",
+           "if prev_val and prev_val.get('class_path') == value['class_path'] and prev_val.get('dict_kwargs'):\n    dict_kwargs = {**prev_val.get('dict_kwargs'), **dict_kwargs}"] :=
+  ⟨rfl, rfl, rfl, rfl, rfl, rfl, rfl, rfl⟩
+
+theorem prefix_has_dot (a k : List Char) (h : (a ++ ['.']).isPrefixOf k = true) : '.' ∈ k := by
+  rw [List.isPrefixOf_iff_prefix] at h
+  obtain ⟨t, rfl⟩ := h
+  simp
+
+/-- EVERY option is looked at: a key without a dot (an option of the parser itself) that holds a class spec on both
+    sides of the merge is handled by the walk, whatever the other keys of the work list are called (`opt` / `opt2`,
+    `model` / `model_ema`: a name that has another option's name as a string prefix is NOT below that option) and wherever
+    it stands.  The separator is the literal of the source. -/
+theorem C14_walk_handles_every_option (both : String → Bool) :
+    ∀ (n : Nat) (keys : List String), keys.length ≤ n → ∀ k ∈ keys, both k = true → '.' ∉ k.toList →
+      k ∈ discardWalk Jap.Gen.discardPruneSep both n keys
+  | 0, keys, hn, k, hk, _, _ => by
+    have : keys = [] := List.eq_nil_of_length_eq_zero (Nat.le_zero.mp hn)
+    subst this
+    cases hk
+  | n + 1, [], _, k, hk, _, _ => by cases hk
+  | n + 1, key :: rest, hn, k, hk, hb, hdot => by
+    simp only [discardWalk]
+    rcases List.mem_cons.mp hk with rfl | hr
+    · simp [hb]
+    · have hlen : rest.length ≤ n := by simpa using hn
+      split
+      · refine List.mem_cons_of_mem _ (C14_walk_handles_every_option both n _ ?_ k ?_ hb hdot)
+        · exact Nat.le_trans (List.length_filter_le _ _) hlen
+        · refine List.mem_filter.mpr ⟨hr, ?_⟩
+          have hsep : Jap.Gen.discardPruneSep.toList = ['.'] := by decide
+          cases hc : isChildKey Jap.Gen.discardPruneSep key k with
+          | false => rfl
+          | true =>
+            simp only [isChildKey, hsep] at hc
+            exact absurd (prefix_has_dot _ _ hc) hdot
+      · exact C14_walk_handles_every_option both n rest hlen k hr hb hdot
+
+/-- … and only keys that hold a class spec on both sides are handled, each at most where it stands in the work list -/
+theorem C14_walk_handles_only_specs (sep : String) (both : String → Bool) :
+    ∀ (n : Nat) (keys : List String), ∀ k ∈ discardWalk sep both n keys, k ∈ keys ∧ both k = true
+  | 0, _, k, hk => by simp [discardWalk] at hk
+  | n + 1, [], k, hk => by simp [discardWalk] at hk
+  | n + 1, key :: rest, k, hk => by
+    simp only [discardWalk] at hk
+    split at hk
+    · rename_i hb
+      rcases List.mem_cons.mp hk with rfl | hr
+      · exact ⟨List.mem_cons_self, hb⟩
+      · obtain ⟨h1, h2⟩ := C14_walk_handles_only_specs sep both n _ k hr
+        exact ⟨List.mem_cons_of_mem _ (List.mem_filter.mp h1).1, h2⟩
+    · obtain ⟨h1, h2⟩ := C14_walk_handles_only_specs sep both n rest k hk
+      exact ⟨List.mem_cons_of_mem _ h1, h2⟩
+
+/-- non-vacuity: the flat keys of `{opt: Spec, opt2: Spec}`; both options are handled, the sub-keys of `opt` are not
+    walked again -/
+example :
+    discardWalk Jap.Gen.discardPruneSep (fun k => k == "opt" || k == "opt2") 8
+      ["opt", "opt.class_path", "opt.init_args", "opt.init_args.a", "opt2", "opt2.class_path", "opt2.init_args", "opt2.init_args.a"]
+    = ["opt", "opt2"] := by decide
+
+/-! ## dataclass-typed values in class_path form (Optional / List / Dict / Union members) -/
+
+/-- a class_path is accepted for a dataclass type ONLY when it is the import path of the declared dataclass itself —
+    identity of the path, not of the simple name — and then the stored fields are all fields of THAT dataclass, well
+    typed (provided the previous ones were) -/
+theorem C14_data_class_path_identity (fields : List IParam) (decl cp : String) (prev ia dk : KV) (r : Val)
+    (hprev : ArgsValid fields prev)
+    (h : adaptData fields decl prev (.spec (some cp) ia dk) = .ok r) :
+    cp = decl ∧ ∃ kv, r = .bare kv ∧ ArgsValid fields kv := by
+  simp only [adaptData, dataFieldsOf] at h
+  split at h
+  · cases h
+  · rename_i kvs hk
+    split at hk
+    · rename_i heq
+      cases hk
+      split at h
+      · cases h
+      · rename_i kv hm
+        cases h
+        exact ⟨by simpa using heq, kv, rfl, mergeArgs_valid _ fields _ _ kv hprev hm⟩
+    · cases hk
+
+/-- a class_path that differs from the declared dataclass's path — same simple name or not — is rejected by the
+    dataclass arm -/
+theorem C14_data_rejects_other_class (fields : List IParam) (decl cp : String) (prev ia dk : KV) (hne : cp ≠ decl) :
+    adaptData fields decl prev (.spec (some cp) ia dk) = .error .unknownKey := by
+  simp [adaptData, dataFieldsOf, hne]
+
+/-- `Union[Dataclass, Class]` / `Union[Class, Dataclass]`: whatever the order of the members, an accepted class_path either
+    IS the declared dataclass (stored as its fields) or passed the import / subclass check of the class member and holds
+    init_args valid for that very class -/
+theorem C14_union_data_class (E : ClassEnv) (fuel : Nat) (fields : List IParam) (decl b cp : String) (ia dk : KV) (r : Val)
+    (h : adaptUnion2 (adaptData fields decl []) (adapt E fuel b none) (.spec (some cp) ia dk) = .ok r
+       ∨ adaptUnion2 (adapt E fuel b none) (adaptData fields decl []) (.spec (some cp) ia dk) = .ok r) :
+    (cp = decl ∧ ∃ kv, r = .bare kv ∧ ArgsValid fields kv) ∨ ElemChecked E b r := by
+  have hd : ∀ r, adaptData fields decl [] (.spec (some cp) ia dk) = .ok r →
+      (cp = decl ∧ ∃ kv, r = .bare kv ∧ ArgsValid fields kv) :=
+    fun r hr => C14_data_class_path_identity fields decl cp [] ia dk r (argsValid_nil fields) hr
+  have hc : ∀ r, adapt E fuel b none (.spec (some cp) ia dk) = .ok r → ElemChecked E b r :=
+    fun r hr => C14_checked_step E fuel b none _ r hr (by intro _ _ _ hp; cases hp)
+  rcases h with h | h <;> simp only [adaptUnion2] at h <;> split at h
+  · rename_i r' hr'
+    cases h
+    exact Or.inl (hd _ hr')
+  · exact Or.inr (hc _ h)
+  · rename_i r' hr'
+    cases h
+    exact Or.inr (hc _ hr')
+  · exact Or.inl (hd _ h)
+
+/-- non-vacuity on the concrete family: `Other` as a dataclass `d.Other(a: int = 1)` next to the class `m.Other`: the
+    exact path is taken, the same-named class of another module is rejected for `Optional[d.Other]` and goes through the
+    class member for `Union[d.Other, m.Base]` (where `m.Sub` is built and `m.Other` rejected) -/
+example :
+    (match adaptData [⟨"a", .scalar "int", some (.lit "int" "1")⟩] "d.Other" [] (.spec (some "d.Other") [("a", .lit "int" "3")] []) with
+     | .ok (.bare kv) => kv.map (·.1) == ["a"]
+     | _ => false) = true
+    ∧ isOk (adaptData [⟨"a", .scalar "int", some (.lit "int" "1")⟩] "d.Other" [] (.spec (some "m.Other") [("a", .lit "int" "3")] [])) = false
+    ∧ (match adaptUnion2 (adaptData [⟨"a", .scalar "int", some (.lit "int" "1")⟩] "d.Other" []) (adapt exE 8 "m.Base" none)
+          (.spec (some "m.Sub") [("a", .lit "int" "3")] []) with
+       | .ok (.spec (some c) _ _) => c == "m.Sub"
+       | _ => false) = true
+    ∧ isOk (adaptUnion2 (adaptData [⟨"a", .scalar "int", some (.lit "int" "1")⟩] "d.Other" []) (adapt exE 8 "m.Base" none)
+          (.spec (some "m.Other") [("a", .lit "int" "3")] [])) = false := by decide
+
 /-- OPEN FINDING C14-dotted-sub-option-into-dict-entry.  `--table.dec.init_args.b=8` for `--table: Dict[str, Base]` whose
     entry `dec` is a `Sub2`: the Dict branch takes the whole remainder as ONE key, so the value `8` is adapted as the
     class of a new entry `dec.init_args.b` (an import failure) instead of becoming the init arg `b` of the entry `dec`;
